@@ -25,6 +25,7 @@ class Sys:
         models.install_resolvers(e)
         S.install(e, self.resolver)
         e.leaf_poll = self.leaf_poll
+        e.resolve_future_impl = self.resolve_future_impl
         e.drop_handler = self.on_drop
         e.conts['wrap_some'] = self.c_wrap_some
         e.conts['identity'] = self.c_identity
@@ -41,6 +42,7 @@ class Sys:
         # closures / dyn dispatch
         ins(r' as Fn(Once|Mut)?<.*>>::call(_once|_mut)?$', self.m_call_closure)
         ins(r'^(dyn_clone::)?clone_box::<', self.m_clone_box)
+        ins(r'^<(.*) as ToOwned>::to_owned$', lambda e, st, fr, t, a: e.dispatch(st, fr, t, a, re.sub(r' as ToOwned>::to_owned$', ' as Clone>::clone', t.func)))
         # misc std
         ins(r'^std::any::type_name::<', lambda e, st, fr, t, a: VConst('type_name'))
         ins(r'^TypeId::of::<(.*)>$', lambda e, st, fr, t, a: VConst('TypeId:' + re.match(r'^TypeId::of::<(.*)>$', t.func, re.S).group(1)))
@@ -61,6 +63,16 @@ class Sys:
         self.ctx_counter = 0
 
     # ------------------------------------------------------------------ generic helpers
+    def resolve_future_impl(self, st, fut):
+        """hannibal types that implement Future themselves (Addr<A>)"""
+        if isinstance(fut, VAgg) and fut.name and re.fullmatch(r'[A-Za-z_:]+', fut.name) and not fut.name.startswith('model'):
+            base = fut.name.split('::')[-1]
+            try:
+                return self.resolver.resolve(f"<{base}<A> as Future>::poll")
+            except Unsupported:
+                return None
+        return None
+
     def resolve_fn_item(self, text):
         t = text.strip()
         try:
@@ -203,6 +215,8 @@ class Sys:
             return rv.vname + ('(' + self.describe_result(st, inner) + ')' if inner is not None and inner is not UNIT else '')
         if isinstance(rv, VAgg) and rv.name == 'ActorError':
             return 'ActorError:' + str((rv.extra or {}).get('from', rv.vname or ''))
+        if isinstance(rv, VAgg) and rv.name == 'ActorError' or (isinstance(rv, VAgg) and rv.vname in ('AlreadyStopped', 'Timeout', 'ServiceNotFound', 'ServiceStillRunning')):
+            return 'ActorError:' + str(rv.vname)
         return _describe(rv)[:60]
 
     # ------------------------------------------------------------------ drop
@@ -271,13 +285,25 @@ class Sys:
         raise Unsupported("StreamNext is polled through m_next_poll")
 
     def poll_user_leaf(self, st, ref, fut):
+        e = self.eng
         kind = fut.extra['kind']
         n = fut.extra['n']
         if kind == 'handle':
             msg = fut.fields[('f', 0)]
+            pend = fut.extra.get('pend', 0)
+            outs = []
+            if pend < getattr(self, 'handler_pending', 0):
+                s2 = st.clone()
+                ex = dict(fut.extra)
+                ex['pend'] = pend + 1
+                _store(e, s2, ref, VAgg(name='leaf', fields=fut.fields, extra=ex))
+                s2.event('user_pending', kind, n, fut.extra.get('actor'), _describe(msg))
+                outs.append((s2, PENDING))
+            self.run_handler_script(st, fut)
             res = self.handler_result(st, fut)
             st.event('user_done', kind, n, fut.extra.get('actor'), _describe(msg))
-            return [(st, ready(res))]
+            outs.append((st, ready(res)))
+            return outs
         if kind == 'started':
             r = self.user_script.get(('started', n), 'ok')
             st.event('user_done', kind, n, fut.extra.get('actor'), r)
@@ -287,9 +313,36 @@ class Sys:
             return [(st, ready(UNIT))]
         raise Unsupported(f"leaf {kind}")
 
+    def sync_call(self, st, path, args):
+        """run a hannibal function to completion from inside a model (must not fork)"""
+        e = self.eng
+        fn = self.resolver.resolve(path)
+        if fn is None:
+            raise Unsupported(f"cannot resolve {path}")
+        depth = len(st.frames)
+        e.push_call(st, fn, list(args))
+        leaves = list(e.run(st, stop_depth=depth))
+        if len(leaves) != 1 or leaves[0] is not st:
+            raise Unsupported(f"nested call to {path} forked")
+        rv = st.result if st.status == 'returned' else st.meta.pop('ret', None)
+        st.status = 'running'
+        return rv
+
+    def run_handler_script(self, st, fut):
+        """user handler behaviour selected by the message id: `ctxstop:*` calls ctx.stop(), `ctxrestart:*` ctx.restart()"""
+        msg = fut.fields[('f', 0)]
+        mid = str((msg.extra or {}).get('id', '')) if isinstance(msg, VAgg) else ''
+        ctx = fut.extra.get('ctx')
+        if mid.startswith('ctxstop') and ctx is not None:
+            r = self.sync_call(st, 'context::Context::<A>::stop', [VRef(ctx.root, ctx.path, False)])
+            st.event('script_result', 'ctx.stop', self.describe_result(st, r))
+        elif mid.startswith('ctxrestart') and ctx is not None:
+            r = self.sync_call(st, 'context::Context::<A>::restart', [VRef(ctx.root, ctx.path, False)])
+            st.event('script_result', 'ctx.restart', self.describe_result(st, r))
+
     def handler_result(self, st, fut):
         msg = fut.fields[('f', 0)]
-        return VAgg(name='Response', fields={('f', 0): msg}, extra={'of': _describe(msg), 'n': fut.extra['n']})
+        return VAgg(name='Response', fields={}, extra={'of': _describe(msg), 'n': fut.extra['n']})
 
 
 # =====================================================================================================
